@@ -9,9 +9,9 @@ requests (floats as 16 hex digits or `nan`; `codes` = FLOWDIRCODE.ravel() read f
   cacc    nrows ncols [codes] [flowdir] maxcells nodata [field] [acc0]   -> ok:[acc] | err:<kind>   c_accumulate on given buffers (no default cap)
   accpin / caccpin : same with the pinned (pre-fix) kernel                (diagnostics)
   down    nrows ncols [codes] [flowdir] [cells]                          -> [d or E]                one entry of c_downstream per cell
-  gacc    nrows ncols [codes] [flowdir] maxcells fdnodata none                      -> ok:[acc] [sens] nodata nrows ncols [field memory after] | err:<kind>
+  gacc    nrows ncols [codes] [flowdir] maxcells fdnodata none                      -> ok:[acc] [sens] nodata nrows ncols [field memory after] T1|T0 | err:<kind>   (T1: every walk ends before the limit — the region where the property fixes the values)
   gacc    nrows ncols [codes] [flowdir] maxcells fdnodata fnrows fncols fnodata [fdata]   (grid.accumulate on grid objects: shapes, result no-data, field memory)
-  caccs   nrows ncols [codes] [flowdir] maxcells nodata [field] [acc0] alias(0|1)     -> ok:[field memory after] [accumulation memory after] [sens] | err:<kind>
+  caccs   nrows ncols [codes] [flowdir] maxcells nodata [field] [acc0] alias(0|1)     -> ok:[field memory after] [accumulation memory after] [sens] T1|T0 | err:<kind>
   clo     nrows ncols [codes] [flowdir] fuel                                        -> [closure of cell 0;closure of cell 1;...] [direct upstream of 0;...]
   spec    nrows ncols [codes] [flowdir] fuel                             -> allTerminate(0/1) [endsAt per cell, -9 = none]
 -/
@@ -42,6 +42,7 @@ def fmtNatMat (rows : List (List Nat)) : String :=
 def fmtGrid (g : FlowGrid) (mc : Int) : Except Err (Store Float × FieldGrid Float) → String
   | .ok (s, r) => "ok:" ++ fmtFloatList r.data.toList ++ " " ++ fmtIntList (orderSensitive g (fuelOf (capOf g mc)))
       ++ " " ++ hexOfFloat r.nodata ++ " " ++ toString r.nrows ++ " " ++ toString r.ncols ++ " " ++ fmtFloatList s.field.toList
+      ++ (if allTerminateB g (fuelOf (capOf g mc)) then " T1" else " T0")
   | .error e => "err:" ++ errName e
 
 def handle (toks : List String) : String :=
@@ -60,7 +61,7 @@ def handle (toks : List String) : String :=
     | some g, some mc, some nodata, some field, some acc0 =>
       match cAccumulateS g mc nodata ⟨field.toArray, acc0.toArray, alias == "1"⟩ with
       | .ok s => "ok:" ++ fmtFloatList s.field.toList ++ " " ++ fmtFloatList s.accArr.toList ++ " " ++
-          fmtIntList (orderSensitive g (fuelOf mc))
+          fmtIntList (orderSensitive g (fuelOf mc)) ++ (if allTerminateB g (fuelOf mc) then " T1" else " T0")
       | .error e => "err:" ++ errName e
     | _, _, _, _, _ => "bad-op"
   | ["clo", nr, nc, codes, fd, fuel] =>
